@@ -599,10 +599,26 @@ NUM_SCRIPT = """house h
 
 framer f be active first f0 at {lit}
   frame f0
-    go next if .t.x == 7 +- {lit}
+    timeout {lit}
+{rep}    go next if .t.x == 7 +- {lit}
   frame f1
     bid start f at {lit}
 """
+
+
+def num_expected(v):
+    """documented normalisation of a direct number n in each post-processed context (HEAD docstrings/code):
+    framer `at`: Tasker period float(max(0.0, n)); bid `at`: max(0.0, n) (python max: 5 stays int, 0 and negatives
+    become 0.0); timeout: float(abs(n)); repeat: int(abs(n)); need tolerance: n unchanged"""
+    exp = {"framer period": float(max(0.0, v)), "bid period": max(0.0, v), "tolerance": v,
+           "timeout": float(abs(v))}
+    if v == v and v not in (float("inf"), float("-inf")):
+        exp["repeat"] = int(abs(v))
+    return exp
+
+
+def num_script(lit, exp):
+    return NUM_SCRIPT.format(lit=lit, rep=("    repeat %s\n" % lit) if "repeat" in exp else "")
 
 
 def build_script(building, excepting, path, text):
@@ -674,8 +690,13 @@ def observe_num(b):
         if hasattr(p, "get") and "period" in p and "taskers" in p:
             obs["bid period"] = p["period"]
         for n in (p or {}).get("needs", []) if hasattr(p, "get") else []:
-            if getattr(n.parms.get("state"), "name", "") == "t.x":
+            nm = getattr(n.parms.get("state"), "name", "")
+            if nm == "t.x":
                 obs["tolerance"] = n.parms["tolerance"]
+            elif nm.endswith("elapsed"):
+                obs["timeout"] = n.parms["goal"]
+            elif nm.endswith("recurred"):
+                obs["repeat"] = n.parms["goal"]
     return obs
 
 
@@ -779,10 +800,9 @@ def check_builder(ctx, building, excepting, info, lits):
         if mm[0] in ("int", "float"):
             v = model_to_python(mm)
             if v == v:  # not nan
-                st, b = build_script(building, excepting, path, NUM_SCRIPT.format(lit=t))
+                exp = num_expected(v)
+                st, b = build_script(building, excepting, path, num_script(t, exp))
                 obs = observe_num(b) if st == "built" else {}
-                # Tasker stores its period as float(period); bid keeps max(0.0, n); tolerance keeps n
-                exp = {"framer period": float(max(0.0, v)), "bid period": max(0.0, v), "tolerance": v}
                 for w, e in exp.items():
                     got = describe(obs[w]) if w in obs else ("missing", st)
                     ctx.case({"ctx": w, "text": t, "impl": got}, kind="builder:" + w)
@@ -1008,6 +1028,42 @@ def doc_literals():
     return lits
 
 
+def numeric_contexts_statement(ctx, building, excepting, g):
+    """implementation ALONE through the real Builder: a direct number in every post-processed numeric context
+    (framer at, bid at, timeout, repeat, tolerance) is stored as the documented normalisation of the number
+    given by the documented order int 10, int 16, float (independent oracle doc_oracle + num_expected)"""
+    ft = {"quote": False, "bool": False, "path": False, "latlon": False, "point": False}
+    lits = ["-0.5", "-3", "-0x10", "0", "0.0", "5", "0x10", "1e-2", "2.5", "1e5", "-2.5", "+7", "007", "1_000",
+            "12.0", "-1e-3", "1.5e+3", "-007", "ff", "-1e5", "0.001", "3.", "+.5", "-.5", "123456789"]
+    path = os.path.join(ctx.work, "c17_search.flo")
+    n = 0
+    for lit in lits:
+        v = doc_oracle(lit, ft, g)
+        if v is ValueError or type(v) not in (int, float):
+            continue
+        exp = num_expected(v)
+        text = num_script(lit, exp)
+        st, b = build_script(building, excepting, path, text)
+        obs = observe_num(b) if st == "built" else {}
+        for w, e in exp.items():
+            n += 1
+            got = describe(obs[w]) if w in obs else ("missing", st)
+            if got != describe(e):
+                stmt = {"framer period": "framer f be active first f0 at %s", "bid period": "bid start f at %s",
+                        "timeout": "timeout %s", "repeat": "repeat %s", "tolerance": "go next if .t.x == 7 +- %s"}[w] % lit
+                ctx.extra["implementation_only_builder_cases"] = n
+                return {"key": "c17-numeric-context-" + w.replace(" ", "-"), "context": w, "statement": stmt,
+                        "literal": lit, "script": text, "observed": repr(obs.get(w, st)),
+                        "observed_type": type(obs[w]).__name__ if w in obs else None, "expected": repr(e),
+                        "expected_type": type(e).__name__,
+                        "why": "stored value/type is not the documented normalisation of the literal for this context "
+                               "(framer at: float(max(0.0,n)); bid at: max(0.0,n); timeout: float(abs(n)); "
+                               "repeat: int(abs(n)); tolerance: n)",
+                        "contradicts": "correspondence C (Builder numeric contexts) / C17.Props.hex_after_dec for the number"}
+    ctx.extra["implementation_only_builder_cases"] = n
+    return None
+
+
 def _case_variants(s):
     return ["".join(t) for t in itertools.product(*[(c, c.upper()) for c in s])]
 
@@ -1069,6 +1125,10 @@ def search(ctx):
     from ioflo.base import building
     import ioflo.base.globaling as g
     found = property_statement(building, g, ctx)
+    if not found:
+        from ioflo.base import excepting
+        found = numeric_contexts_statement(ctx, building, excepting, g)
+        ctx.evaluations += ctx.extra.get("implementation_only_builder_cases", 0)
     ctx.evaluations += ctx.extra.get("implementation_only_cases", 0)
     ctx.distribution["implementation-only statement"] = ctx.extra.get("implementation_only_cases", 0)
     return found
